@@ -84,6 +84,30 @@ print(e, f, g)
     except* ValueError as eg:
         return eg
 ''',
+    'classes-that-are-their-own-bases': '''def mk():
+    return Bb
+
+
+class Aa(mk()):
+    def f(self):
+        self.x = 1
+
+
+class Bb(Aa):
+    def g(self):
+        self.y = 2
+
+
+class Own(Own):
+    def h(self):
+        self.z = 3
+
+
+Aa().x
+Bb().y
+Bb().f
+Own().z
+''',
     'cyclic-attribute-assignments': '''class Node:
     def relink(self):
         self.peer = self.peer
